@@ -532,10 +532,18 @@ func AcquireSummary(fn *ssa.Function) LockSet {
 	if nRet > 0 {
 		for k := range acc {
 			name := strings.TrimPrefix(strings.TrimPrefix(k, "W:"), "R:")
-			if a, ok := LockAlias[name]; ok && deferred[name] {
-				_ = a
-			}
 			if deferred[name] {
+				continue
+			}
+			// the class of a lock that is given back (R:FIB for the tree's or the hash
+			// table's own mutex) is given back with it
+			viaMember := false
+			for d := range deferred {
+				if LockAlias[d] == name {
+					viaMember = true
+				}
+			}
+			if viaMember {
 				continue
 			}
 			// alias classes are added by the transfer function when the member lock is present
